@@ -36,6 +36,12 @@ Judge(e) ==
          ELSE IF e.expire < 0 /\ e.calls3 # 1 THEN [ok |-> FALSE, why |-> "C16 an entry without expiry was recomputed"]
          ELSE IF e.rok # 1 THEN [ok |-> FALSE, why |-> "C16 result differs from the undecorated function"]
          ELSE [ok |-> TRUE, why |-> ""]
+    ELSE IF e.ev = "busy"
+    THEN \* the lookup of a repeated call while another client holds the write lock (statistics on: the lookup writes)
+         IF e.raised # "" THEN [ok |-> FALSE, why |-> "C16 a repeated call failed with " \o e.raised \o " while another client held the lock"]
+         ELSE IF e.calls # 1 THEN [ok |-> FALSE, why |-> "C16 a repeated call within the expiry time ran the function again (its lookup did not wait for the lock held by another client)"]
+         ELSE IF e.rok # 1 THEN [ok |-> FALSE, why |-> "C16 result differs from the undecorated function"]
+         ELSE [ok |-> TRUE, why |-> ""]
     ELSE IF e.ev = "names"
     THEN IF e.q1 # e.q2 /\ (e.shared = 1 \/ e.r2ok # 1)
          THEN [ok |-> FALSE, why |-> "C16 two different functions (" \o e.q1 \o ", " \o e.q2 \o ") share a cache entry"]
